@@ -740,8 +740,11 @@ func (o *ovsdbClient) update3(params []json.RawMessage, reply *[]interface{}) er
 
 	if err == nil {
 		db.monitorsMutex.Lock()
-		mon := db.monitors[cookie.ID]
-		mon.LastTransactionID = lastTransactionID
+		// the notification may be for a monitor this client does not know: a
+		// Monitor() call that gave up on its context after the request was sent
+		if mon, ok := db.monitors[cookie.ID]; ok {
+			mon.LastTransactionID = lastTransactionID
+		}
 		db.monitorsMutex.Unlock()
 	}
 
